@@ -38,17 +38,21 @@ func c18ip(i int) string   { return fmt.Sprintf("10.0.0.%d", i+1) }
 func c18addr(i int) string { return "tcp://" + c18ip(i) + ":9502" }
 
 type c18Cluster struct {
-	c          *controller.Controller
-	nodes      []*eb.ModelNode
-	bes        map[int]*remote.Remote // latest backend per node
-	gateOn     bool                   // reference runs: AddReplica stops after factory.Create until released
-	gateRel    bool
-	gated      bool
-	notes      []string
-	rf         int
-	q          *c03Quorum   // C03conc: oracle evaluated when a mutating data call reaches a replica (nil otherwise)
-	failWrites map[int]int  // op WF<i>: payload byte -> node+1 on which that write fails
-	failReads  map[int]bool // op RF: reads fail on these nodes (the replicas that were RW when the cluster was built)
+	c           *controller.Controller
+	nodes       []*eb.ModelNode
+	bes         map[int]*remote.Remote // latest backend per node
+	gateOn      bool                   // reference runs: AddReplica stops after factory.Create until released
+	gateRel     bool
+	gated       bool
+	notes       []string
+	rf          int
+	q           *c03Quorum      // C03conc: oracle evaluated when a mutating data call reaches a replica (nil otherwise)
+	failREST    map[string]bool // "node/action": the REST call fails with a connection error
+	slowREST    map[string]bool // "node/action": the REST call parks until releaseSlow
+	releaseSlow bool
+	slowParked  int
+	failWrites  map[int]int  // op WF<i>: payload byte -> node+1 on which that write fails
+	failReads   map[int]bool // op RF: reads fail on these nodes (the replicas that were RW when the cluster was built)
 }
 
 var c18cur *c18Cluster
@@ -62,6 +66,17 @@ func (c18Transport) RoundTrip(req *http.Request) (*http.Response, error) {
 	var n int
 	if _, err := fmt.Sscanf(host, "10.0.0.%d", &n); err != nil || cl == nil || n < 1 || n > len(cl.nodes) {
 		return nil, fmt.Errorf("dial tcp %s: connection refused", req.URL.Host)
+	}
+	if act := req.URL.Query().Get("action"); act != "" {
+		key := fmt.Sprintf("%d/%s", n-1, act)
+		if cl.failREST[key] {
+			return nil, fmt.Errorf("injected failure of %s on node %d", act, n)
+		}
+		if cl.slowREST[key] && !cl.releaseSlow {
+			// a slow request: it reaches the node only when the harness lets it
+			cl.slowParked++
+			vs.Block("slow REST request "+key, func() bool { return cl.releaseSlow })
+		}
 	}
 	rec := httptest.NewRecorder()
 	cl.nodes[n-1].ServeHTTP(rec, req)
@@ -298,6 +313,36 @@ func (cl *c18Cluster) op(name string) string {
 		k := idx()
 		n, err := c.WriteAt(c18Block(k+1), int64(k)*eb.Block)
 		return fmt.Sprintf("%s:n=%d,%s", name, n, e(err))
+	case strings.HasPrefix(name, "FailCp"):
+		if cl.failREST == nil {
+			cl.failREST = map[string]bool{}
+		}
+		cl.failREST[fmt.Sprintf("%d/setcheckpoint", idx())] = true
+		return name + ":set"
+	case strings.HasPrefix(name, "SlowCp"):
+		if cl.slowREST == nil {
+			cl.slowREST = map[string]bool{}
+		}
+		cl.slowREST[fmt.Sprintf("%d/setcheckpoint", idx())] = true
+		return name + ":set"
+	case strings.HasPrefix(name, "Sync"):
+		// what sync.AddReplica does on the joining replica: mark rebuilding, copy the source's snapshots
+		i := idx()
+		if err := cl.rest(i, "setrebuilding", `{"rebuilding":true}`); err != nil {
+			return name + ":err"
+		}
+		src := -1
+		for _, r := range c.ListReplicas() {
+			if r.Mode == types.RW {
+				fmt.Sscanf(r.Address, "tcp://10.0.0.%d:9502", &src)
+				src--
+				break
+			}
+		}
+		if src < 0 {
+			return name + ":nosource"
+		}
+		return name + ":" + e(cl.nodes[i].SyncFrom(cl.nodes[src]))
 	case strings.HasPrefix(name, "Restart"):
 		// the replica process restarts (its data stays) and is ready for a fresh add
 		cl.nodes[idx()].Restart()
@@ -390,6 +435,15 @@ var c18Agreement []string
 func (cl *c18Cluster) agreement() []string {
 	v := cl.c.VerifView()
 	var out []string
+	if v.Checkpoint != "" {
+		for _, r := range v.Replicas {
+			var n int
+			fmt.Sscanf(r.Address, "tcp://10.0.0.%d:9502", &n)
+			if cp := cl.nodes[n-1].View().Checkpoint; r.Mode == types.RW && cp != v.Checkpoint {
+				out = append(out, fmt.Sprintf("the controller recorded checkpoint %s but the RW replica on node %d persists %q", v.Checkpoint, n, cp))
+			}
+		}
+	}
 	first := -1
 	for _, r := range v.Replicas {
 		if r.Mode != types.RW {
@@ -491,6 +545,11 @@ func c18Run(cfg *C18Cfg, ch vs.Chooser, trace bool, order []string) (string, *vs
 				start(k)
 			}
 			vs.Quiesce(0)
+			if cl.slowParked > 0 && !cl.releaseSlow {
+				// everything that can run without the slow request(s) has run: now they arrive
+				cl.releaseSlow = true
+				vs.Quiesce(0)
+			}
 		} else {
 			// event "k.j" = call j of op k; "k.j+" = the second half of that call when it is an AddReplica
 			for _, ev := range order {
@@ -615,7 +674,7 @@ func runC18(cfg *C18Cfg, ch vs.Chooser, trace bool) (*Outcome, *vs.Result) {
 			out.Violations = append(out.Violations, Viol{Oracle: "membership-invariant", Sig: "membership-invariant:" + cfg.Init + ":" + strings.Join(cfg.Ops, "||"), Detail: iv + "\n final: " + o})
 		}
 	}
-	if cfg.Name == "readd" {
+	if cfg.Name == "readd" || cfg.Name == "cpslow" {
 		for _, a := range c18Agreement {
 			out.Violations = append(out.Violations, Viol{Oracle: "rw-replicas-disagree", Sig: "rw-replicas-disagree:" + cfg.Init + ":" + strings.Join(cfg.Ops, "||"), Detail: a + "\n final: " + o})
 		}
@@ -677,6 +736,10 @@ func c13Configs(tier string) []C18Cfg {
 		add("rw2wo", p...)
 	}
 	add("rw2", "Snap", "Add2")
+	// a checkpoint fan-out in which one replica fails the call and another one is slow, while the membership moves on to
+	// a newer checkpoint: afterwards every RW replica persists the checkpoint the controller recorded
+	out = append(out, C18Cfg{Name: "cpslow", Init: "rw2wo", Ops: []string{"FailCp0+SlowCp1+Ver2", "Rm0+Add3+Sync3+Ver3"}})
+	out = append(out, C18Cfg{Name: "cpslow", Init: "rw2wo", Ops: []string{"SlowCp1+Ver2", "Mon0+Add3+Sync3+Ver3"}})
 	if tier == "thorough" {
 		add("rw3", "Snap", "Rm1", "W0")
 		add("rw3", "Snap", "Mon1", "Mon2")
